@@ -18,10 +18,11 @@ OUTCOME_STATUS = {'s': 0x0000, 'w': 0xB000, 'f': 0xA700}
 # ------------------------------------------------------------------------------------------------
 # C-MOVE provider
 
-def move_case(n, outcomes, msg_id=5, pc_id=1, default_handler=False, declared=None):
+def move_case(n, outcomes, msg_id=5, pc_id=1, default_handler=False, declared=None, lazy=False):
     """n data sets supplied by the application, outcomes: string over 's','w','f' per sub-operation."""
     from pynetdicom2 import sopclass
-    case = {'kind': 'move', 'n': n, 'outcomes': outcomes, 'msg_id': msg_id, 'pc_id': pc_id, 'default': default_handler}
+    case = {'kind': 'move', 'n': n, 'outcomes': outcomes, 'msg_id': msg_id, 'pc_id': pc_id, 'default': default_handler,
+            'lazy': lazy}
     dss = [svc.simple_ds(PatientName='P%d' % i, PatientID='ID%d' % i, SOPClassUID=svc.SC_STORAGE,
                          SOPInstanceUID='1.2.826.0.1.3680043.9.19.%d' % (i + 1)) for i in range(n)]
     handlers = {}
@@ -34,7 +35,7 @@ def move_case(n, outcomes, msg_id=5, pc_id=1, default_handler=False, declared=No
     statuses = [OUTCOME_STATUS[o] for o in outcomes] or [0]
     try:
         acc, fac, exc = fd.run_acceptor(ae, [svc.primary_plan([(pc_id, svc.PATIENT_MOVE)], [(req, ident, pc_id)]),
-                                             svc.sub_plan(statuses)])
+                                             svc.sub_plan(statuses)], lazy=lazy)
     finally:
         ae.server_close()
     if exc is not None:
@@ -238,6 +239,7 @@ def run_move_enum(ctx, job):
                 ctx.case(('move', n, oc, mid), n == 0 or (n >= 2 and len(set(oc)) > 1),
                          labels=['move', 'n=%d' % n], sample={'n': n, 'outcomes': oc, 'msg_id': mid})
                 ctx.check(move_case, n, oc, mid, pc)
+                ctx.check(move_case, n, oc, mid, pc, False, None, True)      # slow provider thread
     if 0 in job['ns']:
         ctx.case(('move', 'default-handler'), True, labels=['move', 'default-handler'])
         ctx.check(move_case, 0, '', 5, 1, True)
@@ -256,6 +258,7 @@ def run_random(ctx, n):
             _, (k, oc), mid, pc = value
             ctx.case(value, len(set(oc)) > 1, labels=['move', 'n=5+'], sample={'n': k, 'outcomes': oc})
             move_case(k, oc, mid, pc)
+            move_case(k, oc, mid, pc, lazy=True)
         else:
             _, script, hos, final, fb, mid = value
             ns = script.count('S')
@@ -302,6 +305,6 @@ def run(ctx):
 def replay(case):
     warnings.simplefilter('ignore')
     if case['kind'] == 'move':
-        move_case(case['n'], case['outcomes'], case['msg_id'], case['pc_id'], case.get('default', False))
+        move_case(case['n'], case['outcomes'], case['msg_id'], case['pc_id'], case.get('default', False), None, case.get('lazy', False))
     else:
         get_case(case['script'], case['handler_outcomes'], case['final_status'], case['file_backed'], case['msg_id'])
